@@ -7,7 +7,7 @@
 From Coq Require Import List NArith ZArith Arith Bool.
 From Tongo Require Import Lib.Bits Lib.Res Spec.Sha256 Model.BocParse Model.CellHash Spec.ReprHash
   Spec.BocLayout Proofs.CellHashP Proofs.DagP Model.MsgHash Spec.MsgCanon
-  Proofs.MsgHashP Proofs.MsgHashN Proofs.MsgHashD Proofs.MsgHashI.
+  Proofs.MsgHashP Proofs.MsgHashN Proofs.MsgHashD Proofs.MsgHashI Model.MsgHist Proofs.MsgHistP.
 Import ListNotations.
 
 (** The hash reported for a decoded message is the representation hash of the
@@ -162,6 +162,51 @@ Theorem C16_normalized_zero_on_error :
   hash_cell H (canonical_cell dest (m_body m)) = Err e ->
   msg_hash H true m = Ok zero_hash.
 Proof. exact normalized_zero_on_error. Qed.
+
+(** Histories on one variable (Model/MsgHist.v): a successful decode overwrites
+    everything Hash / Hash(true) / SourceBoc look at.  Whatever the variable held
+    before (zero value, another record, a half-written record of a failed
+    decode), whatever was called on it, the state after decoding [c] is the same
+    -- so every observable equals that of a fresh variable -- and it consists of
+    the hasher's answer for [c], the source [c] itself and the fields of the
+    pure decode function. *)
+Theorem C16_decode_overwrites_everything :
+  forall (S : Type) (o : oracle) (hr : res bytes) (hf : cell -> res bytes) (c : cell) (s : S)
+         (v1 v2 v1' : tvar S),
+  tx_assign o hr hf c s v1 = (v1', true) ->
+  tx_assign o hr hf c s v2 = (v1', true) /\
+  exists t, decode_tx_gen o hr hf c = Ok t /\ hr = Ok (tx_hash t) /\
+            v1' = mktv (tx_hash t) (Some s) (Some t) /\ tx_src t = c.
+Proof.
+  intros S o hr hf c s v1 v2 v1' E. split; [eapply tx_assign_overwrites; exact E|].
+  eapply tx_assign_fresh; exact E.
+Qed.
+Print Assumptions C16_decode_overwrites_everything.
+
+Theorem C16_message_decode_overwrites_everything :
+  forall (o : oracle) (hr : res bytes) (c : cell) (v1 v2 v1' : mvar),
+  msg_assign o hr c v1 = (v1', true) ->
+  msg_assign o hr c v2 = (v1', true) /\
+  exists m, decode_message_gen o hr c = Ok m /\ v1' = mkmv (m_hash m) (Some m) /\ hr = Ok (m_hash m).
+Proof.
+  intros o hr c v1 v2 v1' E. split; [eapply msg_assign_overwrites; exact E|].
+  eapply msg_assign_fresh; exact E.
+Qed.
+
+(** The design in which SourceBoc keeps its answer inside the variable while
+    UnmarshalTLB does not clear it (seeded mutant C16-r2m2) is refuted by the
+    history decode A, SourceBoc, decode B, SourceBoc: the last answer is A's
+    source although the hash and the captured cell are B's. *)
+Theorem C16_cached_source_design_refuted :
+  forall (S : Type) (o : oracle) (hf : cell -> res bytes) ca cb ha hb (a b : S) ta tb,
+  decode_tx_gen o (Ok ha) hf ca = Ok ta -> decode_tx_gen o (Ok hb) hf cb = Ok tb ->
+  is_library_cell ca = false -> is_library_cell cb = false ->
+  let v0 := mkcv S tvar_zero None in
+  let v1 := fst (cached_assign S o (Ok ha) hf ca a v0) in
+  let v2 := snd (cached_source S v1) in
+  let v3 := fst (cached_assign S o (Ok hb) hf cb b v2) in
+  fst (cached_source S v3) = Some a /\ tv_src (cv_var S v3) = Some b /\ tv_hash (cv_var S v3) = tx_hash tb.
+Proof. exact cached_source_design_refuted. Qed.
 
 (** Non-vacuity: an external-in message (src addr_extern, dest addr_std with
     anycast, import fee 2 bytes, no init, inline body with one reference)
